@@ -34,10 +34,9 @@ def per_feature(x):
     return [x[:, c].reshape(-1).tolist() for c in range(x.shape[1])]
 
 
-def run_actnorm(ck, drv, ops, dims, seed, mm):
+def run_actnorm(ck, drv, ops, dims, seed, mm, C=3):
     from nflows.transforms.normalization import ActNorm
-    g = tgen(seed, "an", dims, tuple(ops))
-    C = 3
+    g = tgen(seed, "an", dims, tuple(ops), C)
     t = ActNorm(C)
     if bool(t.initialized):
         # every layer has its own life-cycle: what other instances of the process went through is not this one's history
@@ -316,6 +315,11 @@ def run(tier, seed):
             ck.case(("an", dims, tuple(ops)), nontrivial=ops.count(FWD) >= 2)
             ck.count("ActNorm-%dD" % dims)
             run_actnorm(ck, drv, ops, dims, seed + hi, mm)
+            if hi % 3 == 0:
+                # a single feature / a single-channel image: a size-one axis is still an axis
+                n += 1
+                ck.case(("an", dims, tuple(ops), "one-feature"), nontrivial=ops.count(FWD) >= 2)
+                run_actnorm(ck, drv, ops, dims, seed + hi, mm, C=1)
         n += 1
         ck.case(("bn", tuple(ops)), nontrivial=ops.count(FWD) >= 2)
         ck.count("BatchNorm")
